@@ -322,7 +322,7 @@ def drive_async(script, timeout_s=0.05):
         loop.close()
 
 
-def session_over_socket(mode, seed):
+def session_over_socket(mode, seed, wrapper=False):
     """A full device session over loopback; returns list of outcome keys."""
     import threading
     m = env.mods()
@@ -337,7 +337,7 @@ def session_over_socket(mode, seed):
     try:
         if mode == 'sync':
             from adb_shell.transport.tcp_transport import TcpTransport
-            d = m['sync'].AdbDevice(TcpTransport('127.0.0.1', sd.port), default_transport_timeout_s=2.0)
+            d = m['sync'].AdbDeviceTcp('127.0.0.1', sd.port, default_transport_timeout_s=2.0) if wrapper else m['sync'].AdbDevice(TcpTransport('127.0.0.1', sd.port), default_transport_timeout_s=2.0)
             out.append(d.connect(read_timeout_s=3.0))
             out.append(d.shell('ls', decode=False))
             out.append(d.stat('/f'))
@@ -352,7 +352,7 @@ def session_over_socket(mode, seed):
             from adb_shell.transport.tcp_transport_async import TcpTransportAsync
 
             async def go():
-                d = m['asyn'].AdbDeviceAsync(TcpTransportAsync('127.0.0.1', sd.port), default_transport_timeout_s=2.0)
+                d = m['asyn'].AdbDeviceTcpAsync('127.0.0.1', sd.port, default_transport_timeout_s=2.0) if wrapper else m['asyn'].AdbDeviceAsync(TcpTransportAsync('127.0.0.1', sd.port), default_transport_timeout_s=2.0)
                 out.append(await d.connect(read_timeout_s=3.0))
                 out.append(await d.shell('ls', decode=False))
                 out.append(await d.stat('/f'))
@@ -467,13 +467,13 @@ def body(ctx, prefix='C18'):
     ctx.extra['timeouts_observed'] = sum(1 for t in traces for e in t if e['op'] == 'timeout')
     ctx.sample(dict(meta[3], events=traces[3]))
     # SessionSame
-    for mode in ('sync', 'async'):
-        a = session_over_socket(mode, ctx.seed + 5)
+    for mode, wrapper in (('sync', False), ('async', False), ('sync', True), ('async', True)):      # wrapper: the convenience classes AdbDeviceTcp / AdbDeviceTcpAsync
+        a = session_over_socket(mode, ctx.seed + 5, wrapper)
         b = session_in_memory(mode, ctx.seed + 5)
         ctx.count(evaluations=1)
         if a != b:
             first = next((i for i, (x, y) in enumerate(zip(a, b)) if x != y), min(len(a), len(b)))
-            ctx.violation(prefix + '.SessionSame', dict(kind='session', mode=mode, first_difference_at=first, over_socket=repr(a[first])[:200] if first < len(a) else None,
+            ctx.violation(prefix + '.SessionSame', dict(kind='session', mode=mode, convenience_class=wrapper, first_difference_at=first, over_socket=repr(a[first])[:200] if first < len(a) else None,
                                                          in_memory=repr(b[first])[:200] if first < len(b) else None))
     # the same over constrained sockets: 4 KiB receive buffer, slow reader, non-blocking writes (a push larger than the socket buffers)
     from . import c15
